@@ -1,6 +1,12 @@
 // per-variant bridge: runs one call of this variant's API table and returns a variant-independent observation
 pub fn run(id: u32, w: &[u64], kinds: Option<&mut Vec<u8>>) -> Result<crate::CObs, String> {
-    let mut s = Src::new(w);
+    // padding lanes of Vec3A / Mat3A / Affine3A / BVec3A arguments carry junk (it does not exist in the scalar build,
+    // where `from_vec4` simply drops it): the SIMD result must not depend on it
+    const JUNK: [u32; 8] = [0x7f80_0000, 0x7fc0_0000, 0xff80_0000, 0x7149_f2ca, 0x8000_0000, 0x0000_0001, 0xffff_ffff, 0x3f80_0000];
+    let rot = (w.first().copied().unwrap_or(0) % 8) as usize;
+    let mut junk = JUNK;
+    junk.rotate_left(rot);
+    let mut s = Src::with_hidden(w, &junk);
     s.trace = kinds.is_some();
     let mut o = Obs::new();
     let r = vcore::catch(|| call(id, &mut s, &mut o));
@@ -14,5 +20,5 @@ pub fn run(id: u32, w: &[u64], kinds: Option<&mut Vec<u8>>) -> Result<crate::COb
     }
 }
 pub fn api() -> Vec<crate::ApiInfo> {
-    API.iter().map(|e| crate::ApiInfo { id: e.id, ty: e.ty, name: e.name, sig: e.sig, width: e.width, present: e.present }).collect()
+    API.iter().map(|e| crate::ApiInfo { id: e.id, ty: e.ty, name: e.name, sig: e.sig, width: e.width, kind: e.kind, present: e.present }).collect()
 }
